@@ -12,6 +12,7 @@ CONSTANTS
   T = 2
   MaxTime = 0
   EarlyCancel = TRUE
+  NoTimeouts = FALSE
   Mode = "mc"
   SymBreak = FALSE
   Dev_OpnTimeoutWedge = FALSE
